@@ -18,7 +18,7 @@ BUDGET_S = {"quick": 150, "thorough": 2400}
 RULE = ("Files are generated per registered suffix from that language's comment forms (line, block, "
         "decorated-star, doc, Markdown link, HTML), code lines and decoy tags in strings/markup, with "
         "nesting <=4, tags alone / after prose / on line k of n / several per comment (start+end, two starts, two ends) / followed by code, "
-        "LF or CRLF, ASCII or multi-byte prose; comments inside the code part of string interpolations (JS/TS template literals, JSX "
+        "LF or CRLF, ASCII or multi-byte prose, with or without a leading UTF-8 byte order mark; comments inside the code part of string interpolations (JS/TS template literals, JSX "
         "expression containers, shell $( ), Python f-strings, Ruby #{}, Kotlin ${}, C# $\"{}\", PHP embedded in markup). Truth is recorded while writing. A case is one file; it is "
         "non-trivial when it has >=2 blocks and (nesting or a decoy). Distinct = hash of file bytes + suffix.")
 ASSUMPTIONS = [
@@ -97,6 +97,8 @@ def check_file(ctx, suffix, g, flavour, desc, name=None):
         run.rm(root)
     key = h([suffix, g.data.decode("utf-8", "replace")])
     nontrivial = len(g.blocks) >= 2 and (g.meta["nested"] > 0 or g.meta["decoys"] > 0)
+    if g.data.startswith(b"\xef\xbb\xbf"):
+        g.meta["layouts"] = list(g.meta["layouts"]) + ["bom"]
     sets = {"suffix": [suffix], "suffix_form": ["%s/%s" % (suffix, f) for f in g.meta["forms"]],
             "layout": g.meta["layouts"], "flavour": [flavour]}
     counters = {"blocks_expected": len(g.blocks), "decoys": g.meta["decoys"], "files_" + flavour: 1}
@@ -187,7 +189,7 @@ def run_job(job, ctx):
                 for mb in (False, True):
                     r = rng("c03", job["seed"], suffix, job["form"], job["layout"], rep, eol, mb)
                     layouts = (job["layout"],) if job["layout"] not in ("shared", "double") else (job["layout"], "own")
-                    o = gen.Opts(forms=[job["form"]], layouts=layouts, eol=eol, multibyte=mb,
+                    o = gen.Opts(forms=[job["form"]], layouts=layouts, eol=eol, multibyte=mb, bom=(mb and rep % 3 == 2),
                                  attrs_fn=_attrs_fn(script), max_depth=3, max_blocks=8, foreign=True)
                     g = gen.gen_file(r, lang, o)
                     out.append(check_file(ctx, suffix, g, flavour, dict(job, rep=rep, eol=eol, mb=mb)))
@@ -196,7 +198,7 @@ def run_job(job, ctx):
             r = rng("c03r", job["seed"], suffix, job["i"], j)
             o = gen.Opts(eol=r.choice(["\n", "\n", "\r\n"]), multibyte=r.random() < 0.5,
                          attrs_fn=_attrs_fn(script), max_depth=4, max_items=6, max_blocks=14, foreign=True,
-                         final_newline=r.random() < 0.85)
+                         final_newline=r.random() < 0.85, bom=r.random() < 0.12)
             g = gen.gen_file(r, lang, o)
             out.append(check_file(ctx, suffix, g, flavour, dict(job, j=j)))
     elif job["k"] == "md-nested":
